@@ -2,6 +2,7 @@
 C17 — stdin mode writes the formatted text to stdout and nothing else.
 Property theorems (decision logic stated outright) and non-vacuity examples only.
 -/
+import StyluaModel.Lemmas.Ignore
 import StyluaModel.Model.Stdin
 
 namespace StyluaModel.C17
@@ -48,6 +49,45 @@ theorem C17_check (fmt : List Nat → Option (List Nat)) (o : Opts) (input out :
     run fmt o input = if out = input then { stdout := .nothing, exit := 0, writes := [] }
                       else { stdout := .diff, exit := 1, writes := [] } := by
   simp [run, hc, hs, hf]
+
+/-- **`--respect-ignores` never aborts**: whatever ignore files exist and wherever the path named by
+`--stdin-filepath` (or on the command line) lies - inside the current directory or not - the
+question "is it ignored?" has an answer (after fix 8e8142f) -/
+theorem C17_ignore_total (w : Ignore.World) (cwd : Ignore.Path) (spd : Bool) (p : Ignore.Path) :
+    Ignore.pathIsIgnored Ignore.repaired w cwd spd p ≠ .panic := by
+  unfold Ignore.pathIsIgnored
+  split
+  · simp
+  · split
+    · split <;> simp
+    · simp [Ignore.repaired]
+
+/-- the code as pinned aborted (exit status 101) for a path outside the current directory when only
+the current directory has an ignore file -/
+theorem C17_ignore_pinned_panics :
+    let w : Ignore.World := { ignoreDirs := [[1]], matched := fun _ _ => false }
+    Ignore.pathIsIgnored Ignore.pinned w [1] false [2, 3] = .panic ∧
+    Ignore.pathIsIgnored Ignore.repaired w [1] false [2, 3] = .notIgnored := by decide
+
+/-- **which ignore file is consulted**: the one of the path's own directory; with
+`--search-parent-directories` the nearest one on the way up; failing both, the current directory's -/
+theorem C17_ignore_consulted (w : Ignore.World) (cwd dir x : Ignore.Path) (spd : Bool)
+    (h : Ignore.getIgnore w cwd dir spd = some x) :
+    x ∈ w.ignoreDirs ∧
+    ((x <+: dir ∧ (spd = false → x = dir) ∧
+        (spd = true → ∀ d' ∈ w.ignoreDirs, d' <+: dir → d'.length ≤ x.length)) ∨
+     (x = cwd ∧ Ignore.findIgnore w spd dir.length dir = none)) := by
+  unfold Ignore.getIgnore at h
+  split at h
+  · rename_i d hd
+    cases h
+    obtain ⟨h1, h2⟩ := IgnoreLemmas.findIgnore_sound w spd _ _ _ hd
+    refine ⟨h1, Or.inl ⟨h2, ?_, ?_⟩⟩
+    · intro hs; subst hs; exact IgnoreLemmas.findIgnore_own w _ _ _ hd
+    · intro hs; subst hs; exact IgnoreLemmas.findIgnore_nearest w _ _ _ (Nat.le_refl _) hd
+  · rename_i hn
+    obtain ⟨h1, _⟩ := IgnoreLemmas.findIgnore_sound w false _ _ _ h
+    exact ⟨h1, Or.inr ⟨IgnoreLemmas.findIgnore_own w _ _ _ h, hn⟩⟩
 
 /-! ## non-vacuity -/
 example : run (fun i => if i = [9] then none else some (i ++ [0])) { check := false, respectIgnores := true, stdinPathIgnored := false } [1, 2]
